@@ -4,7 +4,8 @@
                      orthotropic (three axes conventions) elasticity, integer stiffness;
    kind "plastic"  : the same for the von Mises law (strains e / den), judged by agreement with the 3D run;
    kind "rotiso"   : an isotropic behaviour and a rotation of the loading;
-   kind "rotortho" : an orthotropic behaviour, a material frame and the rotation helpers of the generic interface. *)
+   kind "rotortho" : an orthotropic behaviour, a material frame and the rotation helpers of the generic interface;
+   kind "rottwo"   : the rotation helpers of an orthotropic behaviour with two tensorial gradients / fluxes. *)
 EXTENDS BehaviourFrames, TLC, Json, IOUtils, SequencesExt
 Thorough == IOEnv.TIER = "thorough"
 HypNames == {H!Name(h) : h \in H!HypSet}
@@ -62,10 +63,13 @@ RotOrthoCase(beh, h, mat, q, e) ==
 OrthoBehs == Behs \ {"VfFrameIso"}
 RotOrtho == UNION {{RotOrthoCase(bh[1], bh[2], mat, q, Driven(bh[2], Loads6[i])) : mat \in OrthoMats, q \in QsOf(bh[2]), i \in 1..2}
                    : bh \in {bh \in OrthoBehs \X H!HypSet : ValidFor(bh[1], bh[2]) /\ H!Dim(bh[2]) >= 2}}
+\* an orthotropic behaviour with two tensorial gradients and fluxes: the helpers alone, one point and arrays of points
+RotTwo == UNION {{[kind |-> "rottwo", beh |-> "VfFrameTwo", hyp |-> H!Name(h), conv |-> "TWO-GRADIENTS", n |-> H!LocalSize(h), q |-> q,
+                   e1 |-> Cut(Loads6[1], H!LocalSize(h)), e2 |-> Cut(Loads6[i], H!LocalSize(h))] : q \in QsOf(h), i \in 2..3} : h \in {H!TRI, H!PE}}
 Number(S) == LET s == SetToSeq(S) IN [i \in 1..Len(s) |-> [id |-> i] @@ s[i]]
 Shift(s, k) == [i \in 1..Len(s) |-> [s[i] EXCEPT !.id = @ + k]]
-All == LET a == Number(Elastic) b == Number(Plastic) c == Number(RotIso) d == Number(RotOrtho) IN
-       a \o Shift(b, Len(a)) \o Shift(c, Len(a) + Len(b)) \o Shift(d, Len(a) + Len(b) + Len(c))
+All == LET a == Number(Elastic) b == Number(Plastic) c == Number(RotIso) d == Number(RotOrtho) e == Number(RotTwo) IN
+       a \o Shift(b, Len(a)) \o Shift(c, Len(a) + Len(b)) \o Shift(d, Len(a) + Len(b) + Len(c)) \o Shift(e, Len(a) + Len(b) + Len(c) + Len(d))
 \* ---- sanity of the oracle and of the lattice ----
 ASSUME H!Theorems
 ASSUME \A A \in Blocks : H!SPD(A) /\ \A i \in 1..3 : H!Cof(A, i, i) > 0
@@ -74,7 +78,7 @@ ASSUME \A m \in IsoModuli : H!SPD(IsoBlock(m[1], m[2]))
 ASSUME \A x \in Elastic : CondensationTheorem(HypOf(x.hyp), x.conv, x.C3, x.G, x.e1, x.szz1)
 \* the isotropic oracle commutes with the rotations that are generated
 ASSUME \A x \in {x \in RotIso : x.beh = "VfFrameIso"} : IsotropyTheorem(HypOf(x.hyp), x.lam, x.mu, x.q, x.e1)
-ASSUME \A x \in RotIso \cup RotOrtho : x.n = 4 => IsZRot(x.q)
+ASSUME \A x \in RotIso \cup RotOrtho \cup RotTwo : x.n = 4 => IsZRot(x.q)
 \* every documented (hypothesis, convention) combination is exercised, and the Pipe permutation is visible
 ASSUME \A hc \in H!HypSet \X H!Conventions : H!ValidCombination(hc[1], hc[2]) /\ (hc[2] = "DEFAULT" => hc[1] = H!TRI)
           => \E x \in Elastic : x.conv = hc[2] /\ x.hyp = H!Name(hc[1]) /\ x.beh # "VfFrameIso"
@@ -83,5 +87,5 @@ ASSUME \E x \in Elastic : x.conv = "PIPE" /\ x.perm # Tup(x.n, LAMBDA i : i)
 ASSUME \E x \in Plastic : Yields(x.mu, x.s0, x.e1, x.den, x.n)
 ASSUME \E x \in Plastic : ~Yields(x.mu, x.s0, x.e1, x.den, x.n)
 ASSUME ndJsonSerialize(IOEnv.OUT, All)
-ASSUME PrintT(<<"GEN", Cardinality(Elastic), Cardinality(Plastic), Cardinality(RotIso), Cardinality(RotOrtho)>>)
+ASSUME PrintT(<<"GEN", Cardinality(Elastic), Cardinality(Plastic), Cardinality(RotIso), Cardinality(RotOrtho), Cardinality(RotTwo)>>)
 =============================================================================
